@@ -166,6 +166,7 @@ type sdRun struct {
 	paged    []*sdPaged
 	readers  []*sdReaderState
 	nQueries int64
+	collect  *[]string     // when set, violations are collected here instead of being reported
 	extra    func(op SDOp) // property-specific checks after each op (C07, C19)
 	mg       *mgmtState
 }
@@ -210,6 +211,10 @@ func (s *sdRun) viol(prop, class, msg string, exp, got any) {
 		// report it under the running property, keeping the origin in the class
 		class = "via-" + prop + "-" + class
 		prop = mp
+	}
+	if s.collect != nil {
+		*s.collect = append(*s.collect, fmt.Sprintf("%s/%s: %s", prop, class, msg))
+		return
 	}
 	key := prop + "|" + class
 	if s.seen[key] {
